@@ -24,6 +24,7 @@ func solverConfigs(timeoutS int, seed int) []SolverCfg {
 		{"cvc5-1.0", []string{"cvc5", "--lang=smt2", "--tlimit=" + ms, fmt.Sprintf("--seed=%d", seed), "--produce-models"}},
 		{"cvc5-1.0-enum", []string{"cvc5", "--lang=smt2", "--tlimit=" + ms, fmt.Sprintf("--seed=%d", seed), "--produce-models", "--enum-inst"}},
 		{"z3-4.8", []string{"z3", "-in", "-smt2", "-t:" + ms, fmt.Sprintf("smt.random_seed=%d", seed)}},
+		{"cvc5-1.0-intblast", []string{"cvc5", "--lang=smt2", "--tlimit=" + ms, fmt.Sprintf("--seed=%d", seed), "--produce-models", "--solve-bv-as-int=sum"}},
 	}
 }
 
@@ -37,7 +38,11 @@ type SolveResult struct {
 }
 
 func runSolver(cfg SolverCfg, script string, hardTimeout time.Duration) (status string, out string, ms int64) {
-	ctx, cancel := context.WithTimeout(context.Background(), hardTimeout)
+	return runSolverCtx(context.Background(), cfg, script, hardTimeout)
+}
+
+func runSolverCtx(parent context.Context, cfg SolverCfg, script string, hardTimeout time.Duration) (status string, out string, ms int64) {
+	ctx, cancel := context.WithTimeout(parent, hardTimeout)
 	defer cancel()
 	cmd := exec.CommandContext(ctx, cfg.Cmd[0], cfg.Cmd[1:]...)
 	cmd.Stdin = strings.NewReader(script)
@@ -65,39 +70,70 @@ func runSolver(cfg SolverCfg, script string, hardTimeout time.Duration) (status 
 	return
 }
 
-// Solve tries the portfolio in order; stops at the first sat/unsat.
+// Solve: stage 1 runs z3 5.1 briefly (most obligations are decided in milliseconds);
+// stage 2 races the whole portfolio with the full budget and takes the first sat/unsat.
 func Solve(script string, quantified bool, timeoutS int, seed int, all bool) *SolveResult {
-	cfgs := solverConfigs(timeoutS, seed)
-	order := []int{0, 1, 3}
-	if quantified {
-		order = []int{1, 0, 2, 3}
-	}
 	res := &SolveResult{Status: "unknown"}
-	var total int64
-	for _, i := range order {
-		cfg := cfgs[i]
-		sc := script
+	withLogic := func(cfg SolverCfg) string {
 		if strings.HasPrefix(cfg.Name, "cvc5") {
-			sc = "(set-logic ALL)\n" + script
+			return "(set-logic ALL)\n" + script
 		}
-		st, out, ms := runSolver(cfg, sc, time.Duration(timeoutS+5)*time.Second)
-		total += ms
-		res.Tried = append(res.Tried, fmt.Sprintf("%s:%s:%dms", cfg.Name, st, ms))
-		if st == "error" {
-			res.Output += "[" + cfg.Name + "] " + firstLines(out, 5) + "\n"
-			continue
+		return script
+	}
+	quick := 2
+	if timeoutS < quick {
+		quick = timeoutS
+	}
+	first := solverConfigs(quick, seed)[0]
+	if quantified {
+		first = solverConfigs(quick, seed)[1]
+	}
+	st, out, ms := runSolver(first, withLogic(first), time.Duration(quick+3)*time.Second)
+	res.Tried = append(res.Tried, fmt.Sprintf("%s:%s:%dms", first.Name, st, ms))
+	total := ms
+	if st == "sat" || st == "unsat" {
+		res.Status, res.Solver, res.Ms, res.Output = st, first.Name, total, out
+		if st == "sat" {
+			res.Model = parseModel(out)
 		}
-		if st == "sat" || st == "unsat" {
-			res.Status, res.Solver, res.Ms, res.Output = st, cfg.Name, total, out
-			if st == "sat" {
-				res.Model = parseModel(out)
+		return res
+	}
+	cfgs := solverConfigs(timeoutS, seed)
+	type r struct {
+		cfg     SolverCfg
+		st, out string
+		ms      int64
+	}
+	ch := make(chan r, len(cfgs))
+	ctx, cancel := context.WithCancel(context.Background())
+	defer cancel()
+	for _, cfg := range cfgs {
+		go func(cfg SolverCfg) {
+			st, out, ms := runSolverCtx(ctx, cfg, withLogic(cfg), time.Duration(timeoutS+5)*time.Second)
+			ch <- r{cfg, st, out, ms}
+		}(cfg)
+	}
+	for range cfgs {
+		x := <-ch
+		res.Tried = append(res.Tried, fmt.Sprintf("%s:%s:%dms", x.cfg.Name, x.st, x.ms))
+		if x.st == "sat" || x.st == "unsat" {
+			res.Status, res.Solver, res.Ms, res.Output = x.st, x.cfg.Name, total+x.ms, x.out
+			if x.st == "sat" {
+				res.Model = parseModel(x.out)
 			}
 			return res
 		}
-		if res.Status == "unknown" {
-			res.Status = st
+		if x.st == "error" {
+			res.Output += "[" + x.cfg.Name + "] " + firstLines(x.out, 5) + "\n"
+		} else {
+			if res.Status == "unknown" {
+				res.Status = x.st
+			}
+			res.Output += "[" + x.cfg.Name + "] " + firstLines(x.out, 3) + "\n"
 		}
-		res.Output += "[" + cfg.Name + "] " + firstLines(out, 3) + "\n"
+		if x.ms > total {
+			total = x.ms
+		}
 	}
 	res.Ms = total
 	return res
@@ -184,27 +220,102 @@ type Discharged struct {
 	Res *SolveResult
 }
 
+func batchScript(os_ []*Obligation) (string, bool) {
+	s := NewScript()
+	var insts []string
+	var all []*Term
+	for _, o := range os_ {
+		var parts []string
+		for _, a := range o.Assumes {
+			parts = append(parts, s.Ref(a))
+			all = append(all, a)
+		}
+		parts = append(parts, s.Ref(Not(o.Goal)))
+		all = append(all, o.Goal)
+		insts = append(insts, "(and "+strings.Join(parts, " ")+")")
+	}
+	asserts := []string{"(or " + strings.Join(insts, " ") + " false)"}
+	return s.Render("", "", nil, asserts, "(check-sat)\n"), hasQuant(all)
+}
+
 func DischargeAll(obls []*Obligation, timeoutS, seed, workers int, dumpDir string) []*Discharged {
 	out := make([]*Discharged, len(obls))
+	// group by name
+	groups := map[string][]int{}
+	var names []string
+	for i, o := range obls {
+		if _, ok := groups[o.Name]; !ok {
+			names = append(names, o.Name)
+		}
+		groups[o.Name] = append(groups[o.Name], i)
+	}
+	type job struct{ idx []int }
+	var jobs []job
+	for _, n := range names {
+		idx := groups[n]
+		q := false
+		for _, i := range idx {
+			if hasQuant(append(append([]*Term{}, obls[i].Assumes...), obls[i].Goal)) {
+				q = true
+				break
+			}
+		}
+		chunk := 24
+		if q {
+			chunk = 1
+		}
+		for k := 0; k < len(idx); k += chunk {
+			e := k + chunk
+			if e > len(idx) {
+				e = len(idx)
+			}
+			jobs = append(jobs, job{idx[k:e]})
+		}
+	}
 	var wg sync.WaitGroup
 	sem := make(chan struct{}, workers)
-	for i, o := range obls {
+	single := func(i int) {
+		o := obls[i]
+		script, q, _ := o.Script("", nil)
+		if dumpDir != "" {
+			os.MkdirAll(dumpDir, 0o755)
+			os.WriteFile(fmt.Sprintf("%s/%04d_%s.smt2", dumpDir, i, sanitize(o.Name)), []byte(script), 0o644)
+		}
+		if len(script) > 4<<20 {
+			out[i] = &Discharged{o, &SolveResult{Status: "toolimit", Output: "VC larger than 4 MB"}}
+			return
+		}
+		out[i] = &Discharged{o, Solve(script, q, timeoutS, seed, false)}
+	}
+	for _, jb := range jobs {
 		wg.Add(1)
 		sem <- struct{}{}
-		go func(i int, o *Obligation) {
+		go func(jb job) {
 			defer wg.Done()
 			defer func() { <-sem }()
-			script, q, _ := o.Script("", nil)
-			if dumpDir != "" {
-				os.MkdirAll(dumpDir, 0o755)
-				os.WriteFile(fmt.Sprintf("%s/%04d_%s.smt2", dumpDir, i, sanitize(o.Label)), []byte(script), 0o644)
-			}
-			if len(script) > 4<<20 {
-				out[i] = &Discharged{o, &SolveResult{Status: "toolimit", Output: "VC larger than 4 MB"}}
+			if len(jb.idx) == 1 {
+				single(jb.idx[0])
 				return
 			}
-			out[i] = &Discharged{o, Solve(script, q, timeoutS, seed, false)}
-		}(i, o)
+			var os_ []*Obligation
+			for _, i := range jb.idx {
+				os_ = append(os_, obls[i])
+			}
+			script, q := batchScript(os_)
+			if len(script) <= 4<<20 {
+				r := Solve(script, q, timeoutS, seed, false)
+				if r.Status == "unsat" {
+					share := r.Ms / int64(len(jb.idx))
+					for _, i := range jb.idx {
+						out[i] = &Discharged{obls[i], &SolveResult{Status: "unsat", Solver: r.Solver, Ms: share, Tried: r.Tried}}
+					}
+					return
+				}
+			}
+			for _, i := range jb.idx {
+				single(i)
+			}
+		}(jb)
 	}
 	wg.Wait()
 	return out
